@@ -258,6 +258,17 @@ theorem cache_refines_mem_partial (c : CacheCfg) (NG : Nat) (g : Cache.Geo c NG)
       (fun _ _ _ _ => trivial) (fun _ _ h => h) (latMem_refines c.nbs M0)).run M0
     (Cache.inv_init (latMem c.nbs M0) _ NG g M0 rfl hzero) ins hm hadr
 
+/-- The geometry side conditions hold for what `Cache.__init__` computes — e.g. the SoC's L2 cache (8 KiB =
+    2048 words, 32-bit master with 30 address bits, 128-bit slave with 28) and a wide-to-narrow cache (64-bit
+    master with 10 address bits over a 16-bit slave with 12, 32 words). -/
+example : Cache.Geo { nbm := 4, nbs := 16, offsetbits := 2, linebits := 9, tagbits := 21, wordbits := 0, saw := 28,
+                      reverse := false } (2 ^ 28) :=
+  ⟨by decide, by decide, by decide, by decide, by decide, by decide⟩
+
+example : Cache.Geo { nbm := 8, nbs := 2, offsetbits := 0, linebits := 5, tagbits := 7, wordbits := 2, saw := 12,
+                      reverse := true } (2 ^ 10) :=
+  ⟨by decide, by decide, by decide, by decide, by decide, by decide⟩
+
 /-- The master's address map is the identity when `reverse` is off. -/
 theorem cache_fmap_id (c : CacheCfg) (h : c.reverse = false) (a : Nat) : Cache.fmap c a = a := by
   simp only [Cache.fmap, Cache.gline, Cache.chunk, h, Bool.false_eq_true, if_false]
@@ -271,8 +282,8 @@ example :
     let M0 : Mem := fun x => if x < 4 then 0 else x + 1
     let q (we : Bool) (a : Nat) (d : List Byte) : Req × Lat :=
       ({ cyc := true, stb := true, we := we, adr := a, sel := [true, true], dat := d, cti := 0, bte := 0 }, ⟨true, []⟩)
-    let ins := List.replicate 2 (q true 1 [0x11, 0x22]) ++ List.replicate 11 (q false 3 []) ++
-               List.replicate 7 (q false 1 [])
+    let ins := List.replicate 2 (q true 1 [0x11, 0x22]) ++ List.replicate 7 (q false 3 []) ++
+               List.replicate 5 (q false 1 [])
     Classic ((cache c).over (latMem c.nbs M0)) ins ∧
     ops ((cache c).over (latMem c.nbs M0)) (Cache.fmap c) ins =
       [{ adr := 1, we := true, sel := [true, true], dat := [0x11, 0x22] },
@@ -332,6 +343,62 @@ theorem up_over_sram_refines (c : UpCfg) (hpos : 0 < c.nbm) (sc : SramCfg) (init
       (fun a => by simp only [Sram.idx_pow2 sc n hdepth haw])
       (fun _ => True) (Sram.NoBurst sc) (fun _ _ _ => by simp [Sram.NoBurst, Sram.adrBurst, hnb0]) hS).run _
     (Sram.inv_init sc init) ins hm (fun _ _ => trivial)
+
+/-- Negative witness for the hypothesis `sc.burst = false` of `up_over_sram_refines` (finding
+    C07-upconverter-burst-passthrough): the UpConverter forwards `cti` unchanged, so a bursting SRAM advances its
+    address counter on every narrow beat.  8-bit master over a 16-bit bursting SRAM, write burst to 2, 3, 4
+    (`cti` 2, 2, 7), then a classic read of 3: it returns the old content 0 — the byte went to address 5. -/
+example :
+    let c : UpCfg := { nbm := 1, cbits := 1 }
+    let sc : SramCfg := { nb := 2, depth := 8, aw := 4, readOnly := false, burst := true }
+    let w (a d cti : Nat) : Req × Unit :=
+      ({ cyc := true, stb := true, we := true, adr := a, sel := [true], dat := [d], cti := cti, bte := 0 }, ())
+    let r (a : Nat) : Req × Unit :=
+      ({ cyc := true, stb := true, we := false, adr := a, sel := [true], dat := [], cti := 0, bte := 0 }, ())
+    let ins := [w 2 0xA2 2, w 2 0xA2 2, w 3 0xB3 2, w 4 0xC4 7, (Req.idle, ()), r 3, r 3, (Req.idle, ()), r 5, r 5]
+    BurstMaster ((upConv c).over (sram sc [])) true ins ∧
+    (ops ((upConv c).over (sram sc [])) id ins).map (fun op => (op.adr, op.we, op.dat)) =
+      [(2, true, [0xA2]), (3, true, [0xB3]), (4, true, [0xC4]), (3, false, [0]), (5, false, [0xB3])] ∧
+    ¬ Consistent c.nbm (Mem.ofList []) (ops ((upConv c).over (sram sc [])) id ins) := by decide
+
+/-- **`master → Cache → SRAM` is a flat byte memory** (`_partial`, same hypothesis as `cache_refines_mem_partial`):
+    the real SRAM model (two-cycle classic slave that writes in both cycles) fills the cache's slave address space
+    (`depth = 2^saw`), initial content 0 on the tag-0 lines.  Composition of `Cache.refines` with `Sram.refines`. -/
+theorem cache_over_sram_refines_partial (c : CacheCfg) (NG : Nat) (g : Cache.Geo c NG) (sc : SramCfg) (init : List Byte)
+    (hnb : sc.nb = c.nbs) (hrw : sc.readOnly = false) (hnb0 : sc.burst = false)
+    (hdepth : sc.depth = 2 ^ c.saw) (haw : c.saw ≤ sc.aw)
+    (hzero : ∀ x, x < 2 ^ c.linebits * Cache.LB c → Mem.ofList (Sram.initMem sc init) x = 0)
+    (ins : List (Req × Unit)) (hm : Classic ((cache c).over (sram sc init)) ins)
+    (hadr : ∀ i ∈ ins, Cache.gline c i.1.adr < NG) :
+    Consistent c.nbm (Mem.ofList (Sram.initMem sc init)) (ops ((cache c).over (sram sc init)) (Cache.fmap c) ins) ∧
+    AckOnlyStrobed ((cache c).over (sram sc init)) ins := by
+  have hd : 0 < sc.depth := by rw [hdepth]; exact Nat.two_pow_pos _
+  have hS := (Sram.refines sc hd hrw init).restrict (fun i => i.1.adr < sc.depth) id (fun i hi => by
+    refine ⟨by simp [Sram.NoBurst, Sram.adrBurst, hnb0], ?_⟩
+    simp only [id, Sram.idx_pow2 sc c.saw hdepth haw]
+    exact (Nat.mod_eq_of_lt hi).symm)
+  rw [hnb] at hS
+  exact (Cache.refines (sram sc init) (Sram.Inv sc) NG g (fun i => Cache.gline c i.1.adr < NG) _
+      (fun s r _ _ => by
+        show (Cache.toSlave c s r).adr < sc.depth
+        rw [hdepth]; exact Nat.mod_lt _ (Nat.two_pow_pos _))
+      (fun _ _ h => h) hS).run _
+    (Cache.inv_init (sram sc init) _ NG g _ (Sram.inv_init sc init) hzero) ins hm hadr
+
+/-- **Chains compose**: `master → Cache → DownConverter → memory` (an L2 cache in front of a narrower memory
+    port, arbitrary latency) — `Cache.refines` applied to `Down.refines` applied to the abstract memory. -/
+theorem cache_over_down_refines_partial (c : CacheCfg) (NG : Nat) (g : Cache.Geo c NG) (dc : DownCfg)
+    (hnb : dc.nbm = c.nbs) (M0 : Mem) (hzero : ∀ x, x < 2 ^ c.linebits * Cache.LB c → M0 x = 0)
+    (ins : List (Req × Lat)) (hm : Classic ((cache c).over ((downConv dc).over (latMem dc.nbs M0))) ins)
+    (hadr : ∀ i ∈ ins, Cache.gline c i.1.adr < NG) :
+    Consistent c.nbm M0 (ops ((cache c).over ((downConv dc).over (latMem dc.nbs M0))) (Cache.fmap c) ins) ∧
+    AckOnlyStrobed ((cache c).over ((downConv dc).over (latMem dc.nbs M0))) ins := by
+  have hD := Down.refines dc (latMem dc.nbs M0) id id (fun t _ M => t = M) (fun _ _ _ => rfl) (fun _ => True)
+    (fun _ => True) (fun _ _ _ _ => trivial) (latMem_refines dc.nbs M0)
+  rw [hnb] at hD
+  exact (Cache.refines ((downConv dc).over (latMem dc.nbs M0)) _ NG g (fun i => Cache.gline c i.1.adr < NG) _
+      (fun _ _ _ _ => trivial) (fun _ _ h => h) hD).run M0
+    (Cache.inv_init ((downConv dc).over (latMem dc.nbs M0)) _ NG g M0 ⟨Down.ratio_pos dc, rfl, rfl⟩ hzero) ins hm hadr
 
 /-! Non-vacuity: 16-bit master over an 8-bit, 4-word SRAM (ratio 2).  Partial write of the upper byte of wide
     word 1 (the lower sub-word is skipped: 3 cycles), then a full read of it (2 sub-word reads: 4 cycles). -/
